@@ -60,7 +60,8 @@ def install(ctx, repo, probes):
     ctx.hashes = {}
 
     def proper(*xs):
-        return all(type(x) is Dur for x in xs)
+        return all(isinstance(x, Dur) and
+                   not isinstance(x, repo.TimeZone) for x in xs)
 
     def fail(name, msg, **kw):
         ctx.violation("op." + name, msg, **kw)
